@@ -53,6 +53,12 @@ func runCheck(args []string) {
 	fmt.Sscanf(os.Getenv("VERIF_SEED"), "%d", &seed)
 	t0 := time.Now()
 	quick, full := 8*time.Second, 150*time.Second
+	if v := os.Getenv("GOVC_FULL"); v != "" {
+		// self-test runs on deliberately broken trees: do not wait long for obligations that will not prove
+		if d, err := time.ParseDuration(v); err == nil {
+			full = d
+		}
+	}
 	if *tier == "thorough" {
 		quick, full = 20*time.Second, 300*time.Second
 		crossCheck = true
